@@ -139,11 +139,18 @@ def chain_history(app, n, names=None, variant=0, intro_at=None, g2_evolutions=()
                        ut=[['f']] if variant == 2 else None)}
     evolutions = []
     intro = {}
-    last = {'A': None, 'B': None}        # (field, is_char) last added per group model
+    last = {'A': None, 'B': None, 'C': None}    # (field, is_char) last added per group model
+    g1 = 'A'
     for i in range(1, n + 1):
-        m = 'B' if i in g2_evolutions else 'A'
+        pre = []
+        if variant == 3 and i == 2:
+            # the G1 model is renamed, to a new table, before this evolution's changes
+            pre = [mu(k='RenM', m='A', om='A', nm='C', dbtable='t_C')]
+            last['C'] = last.pop('A')
+            g1 = 'C'
+        m = 'B' if i in g2_evolutions else g1
         is_char = bool((i + variant) % 2)
-        muts = [mu(k='Add', m=m, f='f%d' % i,
+        muts = pre + [mu(k='Add', m=m, f='f%d' % i,
                    ftype='Char' if is_char else 'Int',
                    attrs={'max_length': 10 + i} if is_char else {'null': True},
                    init='i' if is_char else NONE)]
